@@ -193,6 +193,32 @@ func checkList(t ev.TB, check string, c listCase) {
 			fail("RawTable(%#x) returns different bytes", tc.Tag)
 		}
 	}
+	// --- the other loading entry point: NewLoaders (fonts and collections) must see the written
+	// file as exactly one font with the same tags and contents
+	var lds []*ot.Loader
+	func() {
+		defer func() {
+			if r := recover(); r != nil {
+				fail("NewLoaders panicked on the written file: %v", r)
+			}
+		}()
+		lds, err = ot.NewLoaders(bytes.NewReader(out))
+	}()
+	if err != nil {
+		fail("NewLoaders rejects the written file (%d tables, %d bytes): %v", n, len(out), err)
+	}
+	if len(lds) != 1 {
+		fail("NewLoaders sees %d fonts in the written file, want 1", len(lds))
+	}
+	if tg := lds[0].Tables(); len(tg) != n {
+		fail("NewLoaders: %d tables, want %d", len(tg), n)
+	}
+	for _, tc := range c.Tables {
+		got, err := lds[0].RawTable(ot.Tag(tc.Tag))
+		if err != nil || !bytes.Equal(got, tc.Content) {
+			fail("NewLoaders: RawTable(%#x): err=%v, %d bytes, want the %d bytes written", tc.Tag, err, len(got), len(tc.Content))
+		}
+	}
 	// --- the same through RawTableTo with recycled storage (the documented way to avoid
 	// allocations, used by font.NewFont and the font scanner): the returned slice, not the
 	// storage, is the table; tables are read in two orders so that a short or empty table follows
